@@ -19,7 +19,7 @@ META = dict(
         quick="every graph on <=3 nodes with all relabelings (solver-chosen bijection onto an id pool x solver-chosen "
               "insertion order), 4-node graphs with <=4 bonds under all bijections and reversed insertion order, C4 and "
               "K4-e with fixed labels; element in {C,N}, hcount in {0,1}, order in {1,2}; back-ends generic, wl, morgan, "
-              "nauty; rule-like graphs with pair-valued bond orders (3-chain, triangle, 4-ring; orders in {1,2}x{1,2}, all-carbon in the quick tier); the two-fold symmetric all-carbon dimer of the triangle (bicyclopropyl skeleton, 6 atoms, mirrored symbolic bond orders) under every numbering [thorough: the dimers of the other rooted 3-atom graphs and one 8-atom dimer with single bonds]; both copies of the module; soundness/completeness on all pairs of equal-size graphs <=3 nodes; additionally a few two-/three-atom shards with charges in {-2,-1}: different labels whose hash() values coincide in CPython.",
+              "nauty; rule-like graphs with pair-valued bond orders (3-chain, triangle, 4-ring; orders in {1,2}x{1,2}, all-carbon in the quick tier); the two-fold symmetric all-carbon dimer of the triangle (bicyclopropyl skeleton, 6 atoms, mirrored symbolic bond orders, single bridge bond in the quick tier) under every numbering [thorough: the dimers of the other rooted 3-atom graphs and one 8-atom dimer with single bonds]; both copies of the module; soundness/completeness on all pairs of equal-size graphs <=3 nodes; additionally a few two-/three-atom shards with charges in {-2,-1}: different labels whose hash() values coincide in CPython.",
         thorough="4-node graphs with all insertion orders, 5-node graphs (<=5 bonds) and C5, C6, K2,3 under solver-chosen "
                  "bijections; pairs up to 4 nodes",
     ),
@@ -31,7 +31,7 @@ META = dict(
     rule="one evaluation = one realised (graph, relabelling) or (graph, graph) pair; non-trivial = the relabelling is not "
          "the identity / the two graphs are isomorphic",
 )
-WALL = dict(quick=170, thorough=1500)
+WALL = dict(quick=240, thorough=1500)
 MIN_PATHS = dict(quick=300, thorough=3000)
 
 
@@ -66,7 +66,7 @@ def faithful_bad(g, cg):
     return NOT(f)
 
 
-def build_dimer(E, pre, k, half_edges, orders=(1, 2)):
+def build_dimer(E, pre, k, half_edges, orders=(1, 2), bridge=None):
     """two copies of a rooted graph on k all-carbon atoms (root = atom 1) joined root to root; the bond orders of a copy are
     symbolic and shared by the other copy, so the graph keeps its two-fold symmetry: every orbit has two atoms and
     refinement ends with several cells of equal size"""
@@ -77,7 +77,7 @@ def build_dimer(E, pre, k, half_edges, orders=(1, 2)):
         o = E.choice("%so%d_%d" % (pre, u, v), list(orders)) if len(orders) > 1 else orders[0]
         g.add_edge(u, v, order=o)
         g.add_edge(u + k, v + k, order=o)
-    g.add_edge(1, k + 1, order=E.choice("%sob" % pre, list(orders)) if len(orders) > 1 else orders[0])
+    g.add_edge(1, k + 1, order=bridge if bridge is not None else (E.choice("%sob" % pre, list(orders)) if len(orders) > 1 else orders[0]))
     return g
 
 
@@ -98,9 +98,9 @@ def build(E, pre, n, edges, fixed=False, noh=False, pairs=False, mono=False, neg
     return g
 
 
-def h_canon(E, n, edges, backend, copy, relab, fixed=False, noh=False, pairs=False, mono=False, dimer=0, neg=False):
+def h_canon(E, n, edges, backend, copy, relab, fixed=False, noh=False, pairs=False, mono=False, dimer=0, neg=False, bridge=None):
     GC, CG = canon_cls(copy)
-    g = build_dimer(E, "g", dimer, edges, (1, 2) if dimer <= 3 else (1,)) if dimer else build(E, "g", n, edges, fixed, noh, pairs, mono, neg)
+    g = build_dimer(E, "g", dimer, edges, (1, 2) if dimer <= 3 else (1,), bridge) if dimer else build(E, "g", n, edges, fixed, noh, pairs, mono, neg)
     canon = GC(backend=backend)
     cg1 = canon.make_canonical_graph(g)
     sig1 = canon.canonical_signature(g)
@@ -203,13 +203,14 @@ def shards(tier, seed):
             if len(es) >= 4:
                 sh.append(dict(h="canon", params=dict(n=5, edges=es, backend="nauty", copy="Canon", relab="rev", fixed=True)))
     # charges -1 / -2: different labels whose hash() values coincide in CPython
-    for n_, es_ in ((2, [[1, 2]]), (3, [[1, 2], [2, 3]]), (3, [[1, 2], [1, 3], [2, 3]])):
-        for be in BACKENDS:
+    for n_, es_ in ((2, [[1, 2]]), (3, [[1, 2], [2, 3]])) + (() if q else ((3, [[1, 2], [1, 3], [2, 3]]),)):
+        for be in (("nauty", "wl") if q else BACKENDS):
             sh.append(dict(h="canon", params=dict(n=n_, edges=es_, backend=be, copy="Canon", relab="sym", noh=True, mono=True, neg=True)))
     # two-fold symmetric dimers of rooted three-atom graphs (6 atoms) under every numbering [thorough: of one rooted
     # four-atom graph, 8 atoms, reversed insertion order]
     for half in ([[1, 2], [1, 3], [2, 3]],) + (() if q else ([[1, 2], [2, 3]], [[1, 2], [1, 3]])):
-        sh.append(dict(h="canon", params=dict(n=6, edges=half, backend="nauty", copy="Canon", relab="rev", dimer=3)))
+        sh.append(dict(h="canon", params=dict(n=6, edges=half, backend="nauty", copy="Canon", relab="rev", dimer=3,
+                                              **(dict(bridge=1) if q else {}))))
     if not q:
         sh.append(dict(h="canon", params=dict(n=8, edges=[[1, 2], [1, 3], [2, 3], [2, 4]], backend="nauty", copy="Canon", relab="rev", dimer=4)))
     # rule / ITS-like graphs (pair-valued bond orders) on the triangle, the 3-chain and the 4-ring
